@@ -14,14 +14,20 @@ def keyf(m):
 
 def run(tier, seed):
     chk = vlib.Check("C02", "model_checking", tier, seed)
-    nacc, nrand = (2, 6) if tier == "quick" else (4, 200)
+    nacc, nrand = (2, 6) if tier == "quick" else (4, 400)
     traces = {}
     # checked build: internal self-checks and overflow checks on (a panic is recorded as the result)
     bindir = vlib.build_harness("checked")
-    for s in (44, 65, 87):
-        vlib.drive(bindir, "verify", sets=s, seed=seed, nacc=nacc, nrand=nrand, stress=1, out=chk.workdir)
-        traces[s] = os.path.join(chk.workdir, "verify_%d.ndjson" % s)
-    n, mism = common.validate_f(chk, traces, nproc=12, key_of=keyf)
+    n, mism = 0, []
+    # thorough: the whole family set is regenerated from four different seeds (other keys, messages, placements, pools)
+    for rnd, sd in enumerate([seed] if tier == "quick" else [seed, seed + 101, seed + 202, seed + 303]):
+        out = os.path.join(chk.workdir, "v%d" % rnd)
+        for s in (44, 65, 87):
+            vlib.drive(bindir, "verify", sets=s, seed=sd, nacc=nacc, nrand=nrand, stress=1, out=out)
+            traces[s] = os.path.join(out, "verify_%d.ndjson" % s)
+        n1, m1 = common.validate_f(chk, traces, nproc=12, key_of=keyf)
+        n += n1
+        mism += m1
     # the release build wraps silently where the checked build panics: judge the stress family there too
     rel = vlib.build_harness("release")
     rdir = os.path.join(chk.workdir, "rel")
